@@ -164,6 +164,8 @@ func weeksTour(res *core.Result, r *core.RNG) (*sim, error) {
 	s.stats("archived", false)
 	s.stats("archived", true) // must not rewrite the archive
 	s.stats("archived", false)
+	s.stats("misaligned-archived", false)
+	s.stats("misaligned-archived", true)
 	s.stats("live1", false)
 	w.SnapHop()
 	w.SetNow(5300)
@@ -255,6 +257,19 @@ func equipTour(res *core.Result, r *core.RNG) (*sim, error) {
 	s.send(d1, 300, 445)
 	for _, k := range []string{"duplicate", "bad-signature", "foreign-signature"} {
 		s.authorizeVariant(k)
+	}
+	// the published authorization of a live device with its signature replaced by the non-canonical twin
+	// (r, n-s), which anybody can compute: not a signature of the GCA, so it must bounce (were it accepted
+	// it would be a "different" authorization for the id and ban the device)
+	{
+		tw := d1.Auth
+		tw.Signature = malleate(d1.Auth.Signature)
+		before := s.w.S.VerifSnapshot()
+		s.res.Count("authorize.malleated-twin")
+		s.authorize(tw, "bad-signature")
+		if after := s.w.S.VerifSnapshot(); viewJSON(before, true) != viewJSON(after, true) {
+			s.fail(fmt.Sprintf("an authorization carrying the non-canonical twin of the GCA's signature changed the server state (device %d banned: %v)", d1.ID, after.Equipment[d1.ID].ShortID != d1.ID), "c06-malleable-authorization")
+		}
 	}
 	// conflict that carries ANOTHER live device's key (D3): device 0 is banned, device 1 must keep its lookup
 	ea := d0.Auth
